@@ -10,12 +10,15 @@ from props import common as K
 META = {
     "level": "other",
     "technique": "static analysis of type-checked MIR (rustc_private driver): abstract interpretation of the filter decision functions into complete case tables; provenance of payload and serializer fields; list-coverage rule",
-    "explanation": "The decision functions of the three filter kinds are abstractly interpreted (Option::map closures inlined) "
-                   "and the resulting complete case tables are compared for equality with the specification (filter covers "
-                   "origin, argument order included); the container's drop_payload is checked to consult every filter list "
-                   "whose element type has a drop_payload and to return true on its true edge; every assertion's payload is "
-                   "built from exactly its own fields and iter_payload chains all three lists; hand-written serializers write "
-                   "each field from the value's own data and omit it only when that data is None.",
+    "explanation": "The decision functions of the three filter kinds are abstractly interpreted — private helpers, accessors and "
+                   "std's Option combinators read through, only the tests the specification is written in left opaque — and the "
+                   "resulting case table must denote the specified decision function on every combination of present/absent "
+                   "criteria, payload variant and test outcome (filter covers origin, argument order included); the container's "
+                   "drop_payload is decided by constant propagation: every filter list whose element type has a drop_payload is "
+                   "scanned whole, a match makes every return answer true, no match anywhere makes every return answer false; every "
+                   "assertion's payload, constructor layers looked through, consists of exactly its own fields and iter_payload "
+                   "chains all three whole lists; hand-written serializers write each field from the value's own data and omit "
+                   "it only when that data is None.",
     "not_decided": ["JSON round-trip equality (serde-derived; value equality)"],
     "trusted_base": ["Prefix::covers (C13 not decided)", "derived PartialEq of Asn / KeyIdentifier"],
 }
@@ -1021,6 +1024,19 @@ def check_container_drop(ctx, f, fn=None, label=None):
                 return False, "a non-matching element ends the scan"
         return True, None
 
+    nomatch_all = {s_["bb"]: s_["nomatch"] for s_ in sources if s_["nomatch"] is not None and s_["payload_ok"]}
+
+    def reached(s_):
+        """With no filter matching anywhere, no return is reached without coming to this place (the scan of a list is not
+        skipped on some condition).  An optional list bound by `if let Some(list)` is legitimately skipped when absent."""
+        if "↓Some.0" in render(strip_deep(s_["coll"])) or _unmut(s_["coll"])[0] == "var":
+            return True
+        gate = s_["next_bb"] if s_["form"] == "loop" else s_["bb"]
+        if gate is None:
+            return False
+        rets, _ = const_prop(b, 0, {}, nomatch_all, barrier={gate})
+        return not rets
+
     for fname, ety in fields:
         key = ety + "::drop_payload"
         mine = [s_ for s_ in sources if s_["key"] == key]
@@ -1029,6 +1045,8 @@ def check_container_drop(ctx, f, fn=None, label=None):
         for s_ in mine:
             whole = s_["coll"] is not None and whole_list(f, b, sy, s_["coll"], fname)
             d_ok, why_not = drops(s_) if whole and s_["payload_ok"] else (False, None)
+            if d_ok and not reached(s_):
+                d_ok, why_not = False, "the scan of this list can be skipped"
             det.append({"form": s_["form"], "applies": s_["text"], "whole_list": whole, "payload_ok": s_["payload_ok"],
                         "drops": d_ok if why_not is None else why_not})
             ok = ok or (whole and s_["payload_ok"] and d_ok)
